@@ -74,7 +74,7 @@ CHECKS = {
  "C19": ("vp-grpc", True, "exploration", "differential runtime monitor with tonic mock services",
    "The real gRPC adapters talk to in-process mock services generated from the repository's .proto files; discovery results, Select requests and results are compared field-wise with what the mock sent/received; malformed replies must yield Err.",
    "the status adapter carries no targets and is not judged", "DESIGN.md §5 C19"),
- "C20": ("vp-agones", False, "fault_enumeration", "history-driven monitor against a mock Kubernetes API",
+ "C20": ("vp-agones", True, "fault_enumeration", "history-driven monitor against a mock Kubernetes API",
    "Scripted watch histories (ADDED/MODIFIED/DELETED/BOOKMARK, dropped watches, 410 Gone re-lists) are served by a loopback mock; after each event discover() must equal the reference set within a settling bound.",
    "'at all times' is restated as 'within the settling bound after every observed event'", "DESIGN.md §5 C20"),
 }
